@@ -22,6 +22,7 @@ Construct(c) ==
     CASE c.op = "new"               -> NewInt(c.w)
       [] c.op = "with_capacity"     -> NewInt(c.w)
       [] c.op = "with_len"          -> WithLenInt(c.n, c.w, ToSet(c.v))
+      [] c.op \in {"from_vec", "from_iter"} -> FromItems(c.w, [k \in 1..Len(c.vs) |-> ToSet(c.vs[k])])
       [] c.op = "new_raw"           -> NewRaw
       [] c.op = "with_capacity_raw" -> NewRaw
       [] c.op = "with_len_raw"      -> WithLenRaw(c.n, c.b)
